@@ -14,8 +14,6 @@ def schedule(seed):
     r = random.Random(seed)
     mode = r.choice(["plain", "plain", "sw", "occ"])
     nitems = r.randrange(2, 6)
-    site, nth = r.choice([("batch.after_seqno", 1), ("batch.after_item", r.randrange(1, nitems)),
-                          ("batch.before_publish", 1), ("batch.after_item", 1)])
     maint = r.choice(["none", "none", "flush", "major", "flush"])
     use_tx = mode != "plain" and r.random() < 0.5
     items = [(r.choice(["h0", "h1"]), r.choice(KEYS), "%02x" % r.randrange(1, 255)) for _ in range(nitems)]
@@ -25,6 +23,9 @@ def schedule(seed):
         if (h, k) not in seen:
             seen.add((h, k))
             its.append((h, k, v))
+    # the pause site is chosen after de-duplication, so that it is always reached
+    site, nth = r.choice([("batch.after_seqno", 1), ("batch.after_item", r.randrange(1, len(its) + 1)),
+                          ("batch.before_publish", 1), ("batch.after_item", 1)])
     L = ["open %s" % mode, "ks h0 alpha", "ks h1 beta", "ks h2 gamma", "put h0 6b 00", "put h1 6b 00", "put h2 6b 00"]
     if maint == "flush":
         L += ["rotate h2", "pausepoint worker.flush.before 1 hold", "thread wk step &", "waitpause worker.flush.before"]
